@@ -179,7 +179,7 @@ func runCase(t *rapid.T) {
 }
 
 func TestPropNormalForm(t *testing.T) {
-	ev.Check(t, 2500, 25000, runCase)
+	ev.Check(t, 1500, 20000, runCase)
 }
 
 // TestKnownFindings re-confirms the listed known findings that touch C03.
